@@ -66,6 +66,7 @@ def run(prop, tier, seed, only_rule=None):
             reports.append(rep)
             continue
         prog = Program(d)
+        rep.prog = prog
         rep.analysed.update({
             "config": cfg,
             "facts_cached": info.get("cached"),
